@@ -162,6 +162,15 @@ def run(rep, sub=False):
                 pos, neg = split(e['cond'])
                 if all(c[0] == 't' and c[1][0] == 'mcall' and c[1][2] == 'insert' and c[1][3] == [Hh] for c in pos) and not neg:
                     forwarders[q] = hidx[0]
+    # a function of the recursive component that only hands its block on to the block walker, unconditionally (the driver of a block walk
+    # written as a work list: `let mut pending = vec![block]; while let Some(b) = pending.pop() { .. }`, see engine_ogp.normalise_worklists)
+    BWdrv = set()
+    for q in recursive - BW - FW:
+        fi = ogp.crate.fns[q]
+        bps = [('param', q, p_['pat'].get('name')) for p_ in fi['params'] if p_['ty'].replace(' ', '').endswith('Block')]
+        for e in ogp.effects.get(q, []):
+            if bps and e['in'] == q and e['kind'] == 'reccall' and e['callee'] in BW and e['cond'] == TRUE and not e['loops'] and any(b_ in e['args'] for b_ in bps):
+                BWdrv.add(q)
     rep.floor('function matching on naga::Statement (block walker)', len(BW), 1)
     rep.floor('function matching on naga::Expression (function walker)', len(FW), 1)
     if not BW or not FW:
@@ -182,7 +191,7 @@ def run(rep, sub=False):
         own = ogp.effects.get(q, [])
         if what == 'body':
             if any(any(l[1] == ('f', P, 'body') for l in e['loops']) for e in own) or \
-                    any(e['kind'] == 'reccall' and e['callee'] in BW and ('f', P, 'body') in e['args'] for e in own):
+                    any(e['kind'] == 'reccall' and e['callee'] in (BW | BWdrv) and ('f', P, 'body') in e['args'] for e in own):
                 return True
         else:
             if any(any(l[1] == ('f', P, 'expressions') and l[2] == [] for l in e['loops']) for e in own if e['in'] == q or e['in'] not in recursive):
@@ -485,7 +494,7 @@ def run(rep, sub=False):
             for x in es:
                 if x['kind'] != 'reccall':
                     continue
-                if what == 'body' and x['callee'] in BW and ('f', EF, 'body') in x['args']:
+                if what == 'body' and x['callee'] in (BW | BWdrv) and ('f', EF, 'body') in x['args']:
                     return True
                 cidx = param_index(crate.fns[x['callee']], is_fn)
                 if cidx is not None and cidx < len(x['args']) and x['args'][cidx] == EF and covers(x['callee'], what):
